@@ -193,7 +193,10 @@ LAST = {'array': None}      # the array most recently handed to the `values` set
 def apply(c, op, optag, opval, target, n, span, extra):
     """Apply one operation; returns a description; raises whatever the container raises."""
     if op == 'add':
-        c.add_variable(target, opval, dtype=extra)
+        if extra is None and len(str(target)) % 2:
+            c.add_variable(target, opval)                 # the documented default left out ...
+        else:
+            c.add_variable(target, opval, dtype=extra)    # ... or spelled out (dtype=None)
     elif op == 'attr':
         setattr(c, target, opval)
     elif op == 'item':
@@ -300,6 +303,11 @@ def step(ctx, c, twin, dtypes, hist, kind, n, span, op, optag, opval_factory, ta
         apply(c, op, optag, operand, target, n, span, extra)
         if op == 'add':
             dtypes[target] = c.__dict__['_' + target].dtype
+            if extra is None and kind != 'container' and dtypes[target] != np.dtype(c.__dict__['dtype']):
+                # models and linkers: without a dtype of its own (left out, or None) the new variable takes the object's dtype
+                hist.append(desc + ['ok'])
+                ctx.violation('series-dtype', f'{kind}: add_variable({target!r}, {optag}{"" if len(str(target)) % 2 else ", dtype=None"}) on an object of dtype {c.__dict__["dtype"]} created a series of dtype {dtypes[target]}', {'kind': kind, 'n': n, 'history': hist})
+                return False
             if extra is not None and np.dtype(extra).itemsize > 0 and dtypes[target] != np.dtype(extra):
                 # an explicit, fully specified dtype (fixed width) is the dtype the variable is created with
                 hist.append(desc + ['ok'])
